@@ -150,6 +150,10 @@ pub enum CardKind {
         no_tlv: bool,
     },
     Abort(u8),
+    /// A status information whose TLV container (BMP 06) holds exactly these bytes (hex) - for the
+    /// no-hang check: elements with length forms the library does not support, cut-short elements,
+    /// deep nesting. Nothing about the classification is judged.
+    RawTlv(String),
 }
 
 #[derive(Clone, Debug, PartialEq, Eq, Serialize, Deserialize)]
@@ -994,6 +998,13 @@ impl PtConn {
                         identity: false,
                         effect: Effect::None,
                     }),
+                    CardKind::RawTlv(hex) => {
+                        let raw = crate::exchange::hexser::from_hex(hex).unwrap_or_default();
+                        let mut body = vec![0x27, 0x00, 0x06];
+                        body.extend(rc::ber_len(raw.len()));
+                        body.extend(raw);
+                        out.push(Emit { frame: rc::apdu((0x04, 0x0f), &body[..body.len().min(65535)]), delay_ms: o.delay_ms, identity: false, effect: Effect::None });
+                    }
                     CardKind::Card { uid, apps, nested_apps, no_tlv } => {
                         let mut st = rc::Status {
                             result_code: Some(0),
